@@ -1,6 +1,6 @@
 (* Driver entry points for C05: the model of the optional tree rewrites (Model/FinalOpt.v). *)
 From Coq Require Import FMapPositive.
-From Verif Require Import Base.Prelude Base.Wire Model.CharClass Model.Parser Model.FinalOpt Extract.Drv16 Extract.Drv10.
+From Verif Require Import Base.Prelude Base.Wire Model.CharClass Model.Parser Model.FinalOpt Model.FinalOptParse Extract.Drv16 Extract.Drv10.
 
 (* ---- the tree in the encoding of Drv10.e_rnode:
    preorder, every node = [T; opts; ch; M; N; len str; str..; has set; set..; nkids; kids..] *)
@@ -62,6 +62,43 @@ Definition run_fo (args : list Z) : list Z :=
   let a := run_fo_d false args in
   if zlist_eqb a (run_fo_d true args) then a else oracle_incomplete.
 
+(* 0502: gate mask, (rune, IsECMAWordChar) pairs, then the input of leg 1001 (options, MaintainCaptureOrder, rune
+   rows, category table, name table, pattern)  ->  0 tree | 1 error code | 2 outside the parser model's fragment *)
+Definition run_gparse_d (dflt : bool) (args : list Z) : list Z :=
+  match (dlet g <- d_z ; dlet ew <- d_list (d_pair d_z d_z) ;
+         dlet o <- d_z ; dlet mco <- d_bool ;
+         dlet rows <- d_list d_rrow ;
+         dlet ids <- d_zlist ; dlet ct <- d_list (d_pair d_z d_z) ;
+         dlet names <- d_list (d_pair d_zlist d_z) ;
+         dlet p <- d_zlist ;
+         d_ret (g, ew, o, mco, rows, ids, ct, names, p)) args with
+  | Some ((g, ew, o, mco, rows, ids, ct, names, p), []) =>
+      let rm := build_rmap rows in
+      let cm := build_map ct in
+      let em := build_map ew in
+      let nz := fun x => negb (x =? 0) in
+      let miss_z := fun r : Z => if dflt then r else -7 in
+      let fuel := (40 + 8 * length p)%nat in
+      e_res (fun r => match r with
+                      | PR_Tree t _ _ => 0 :: e_rnode t
+                      | PR_Err c => [1; c]
+                      | PR_Outside => [2]
+                      end)
+        (fo_parse (fun c => match rr_find rm c with Some r => nz (rr_word r) | None => dflt end)
+                  (fun c => match rr_find rm c with Some r => rr_lower r | None => miss_z c end)
+                  (fun c => match rr_find rm c with Some r => rr_fold r | None => miss_z c end)
+                  (fun c => match rr_find rm c with Some r => nz (rr_part r) | None => dflt end)
+                  (cat_in_tbl dflt ids cm)
+                  (fun s => name_lookup names s (if dflt then -1 else -2))
+                  (fun c => if c <? -1 then dflt else match PositiveMap.find (rkey c) em with Some v => nz v | None => dflt end)
+                  fuel g o mco p)
+  | _ => bad_case
+  end.
+Definition run_gparse (args : list Z) : list Z :=
+  let a := run_gparse_d false args in
+  if zlist_eqb a (run_gparse_d true args) then a else oracle_incomplete.
+
 Definition run05 (leg : Z) (args : list Z) : list Z :=
+  if leg =? 502 then run_gparse args else
   if leg =? 501 then run_fo args
   else bad_case.
